@@ -25,7 +25,7 @@ ASSUMPTIONS = [
     "monotonicity law evaluated on trees without negated rows (a negated row is meant to be dropped under cant_delete)",
     "juniper 'inactive:' rows are not generated",
 ]
-FLOORS = {"quick": {"filters_compared": 3000, "strict_raises_agreed": 300, "strict_passes_agreed": 100, "monotone_checked": 1000, "idempotent_checked": 3000, "explicit_negated_rule_cases": 400, "production_merges_checked": 1500, "diff_texts_filtered": 600, "ignore_rule_filters": 300, "slash_regex_filters": 300},
+FLOORS = {"quick": {"filters_compared": 3000, "strict_raises_agreed": 300, "strict_passes_agreed": 100, "monotone_checked": 1000, "idempotent_checked": 3000, "explicit_negated_rule_cases": 400, "production_merges_checked": 1500, "diff_texts_filtered": 600, "ignore_rule_filters": 300, "slash_regex_filters": 300, "rows_under_an_inherited_global_rule_two_or_more_levels_down": 300, "acl_lines_with_tab_before_params": 2000},
           "thorough": {"filters_compared": 100000, "strict_raises_agreed": 10000, "strict_passes_agreed": 3000, "monotone_checked": 30000, "idempotent_checked": 100000, "explicit_negated_rule_cases": 12000, "production_merges_checked": 50000, "diff_texts_filtered": 20000, "ignore_rule_filters": 10000, "slash_regex_filters": 5000}}
 VENDORS = ["huawei", "cisco", "pc", "routeros", "juniper", "arista"]
 KNOWN_WINNER = "C06/children-rules-lost-when-global-or-negated-match-outranks-local"
@@ -116,7 +116,30 @@ def add_shared_child_flags(rng, level, U, prefix):
     return True
 
 
-def make_case(seed, negpair=False):
+def add_deep_global(rng, level, tree, prefix):
+    """a non-catch-all %global rule written inside a block rule that also has nested block rules, and rows it covers placed one, two and three
+    levels below matching blocks: an inherited %global rule stays in force all the way down"""
+    hosts = [r for r in level if r.children and not r.glob and any(c.children for c in r.children)]
+    if not hosts:
+        return 0
+    host = rng.choice(hosts)
+    host.children.append(A.AclRule("gdesc ~", glob=True, cant_delete=([True] if rng.random() < 0.3 else None)))
+    placed = [0]
+
+    def sow(t, depth):
+        for row, ch in list(t.items()):
+            if depth >= 1 and rng.random() < 0.6 and not row.startswith("gdesc"):
+                t["gdesc k%d x%d" % (rng.randint(1, 3), depth)] = type(t)()
+                placed[0] += depth >= 2
+            if ch:
+                sow(ch, depth + 1)
+    for row, ch in tree.items():
+        if ch and A.R.match(host.pat, row) is not None:
+            sow(ch, 1)
+    return placed[0]
+
+
+def make_case(seed, negpair=False, deep=False):
     rng = random.Random(seed)
     vname = VENDORS[rng.randrange(len(VENDORS))]
     from annet.vendors import registry_connector
@@ -140,7 +163,24 @@ def make_case(seed, negpair=False):
             add_shared_child_flags(rng, a, U, prefix)
         t = add_negated(rng, t, prefix, 0.35)
         neg = True
+    if deep:
+        drng = random.Random(seed ^ 0xDEE9)
+        DEEP_PLACED[seed] = add_deep_global(drng, a, t, prefix)
     return vname, prefix, U, t, a, b, neg
+
+
+DEEP_PLACED = {}
+
+
+def tabbed(text, rng):
+    """the same ACL text with TABs (or a blank and TABs) in front of the first parameter of some lines, as column-aligned rule files are written"""
+    out = []
+    for ln in text.split("\n"):
+        i = ln.find(" %")
+        if i > 0 and rng.random() < 0.6:
+            ln = ln[:i].rstrip() + rng.choice(["\t", "\t\t", " \t"]) + ln[i:].lstrip()
+        out.append(ln)
+    return "\n".join(out)
 
 
 def real_filter(text, vname, tree, fatal=False):
@@ -163,15 +203,21 @@ def classify(level, pt, prefix, got):
     return None
 
 
-def check_case(seed, acc, negpair=False):
+def check_case(seed, acc, negpair=False, deep=False):
     from annet.annlib.patching import AclError
-    vname, prefix, U, t, a, b, neg = make_case(seed, negpair)
+    vname, prefix, U, t, a, b, neg = make_case(seed, negpair, deep)
     pt = plain(t)
-    w = {"seed": seed, "negpair": negpair, "vendor": vname, "tree": pt}
+    w = {"seed": seed, "negpair": negpair, "deep": deep, "vendor": vname, "tree": pt}
+    if deep:
+        acc.count("rows_under_an_inherited_global_rule_two_or_more_levels_down", DEEP_PLACED.pop(seed, 0))
     if negpair:
         acc.count("explicit_negated_rule_cases")
     acls = {"A": a, "B": b, "A+B": a + b}
     texts = {k: A.render(v) for k, v in acls.items()}
+    if deep:
+        trng = random.Random(seed ^ 0x7AB)
+        texts = {k: tabbed(v, trng) for k, v in texts.items()}
+        acc.count("acl_lines_with_tab_before_params", sum(1 for v in texts.values() for ln in v.split("\n") if "\t%" in ln))
     texts["A+B"] = texts["A"] + "\n" + texts["B"]
     w["acl_A"], w["acl_B"] = texts["A"], texts["B"]
     res = {}
@@ -430,7 +476,7 @@ def run_shard(spec, acc):
     if spec["mode"] == "replay" and spec["witness"].get("ignore_case"):
         return check_ignore_case(spec["witness"]["seed"], acc)
     if spec["mode"] == "replay":
-        check_case(spec["witness"]["seed"], acc, negpair=bool(spec["witness"].get("negpair")))
+        check_case(spec["witness"]["seed"], acc, negpair=bool(spec["witness"].get("negpair")), deep=bool(spec["witness"].get("deep")))
         return
     tier, k, n = spec["tier"], spec["shard"], spec["nshards"]
     total = 4800 if tier == "quick" else 80000
@@ -442,6 +488,8 @@ def run_shard(spec, acc):
             acc.sample({k2: w[k2] for k2 in ("vendor", "acl_A", "acl_B", "tree")})
         if j % 5 == 4:
             check_case(rng.randrange(1 << 48), acc, negpair=True)
+        if j % 5 == 2:
+            check_case(rng.randrange(1 << 48), acc, deep=True)
         if j % 5 == 1:
             check_ignore_case(rng.randrange(1 << 48), acc)
         if j % 10 == 3:
